@@ -42,6 +42,17 @@ FIELD_TYPES = {
     (FS, "ns"): [NS, INS],  # SamplerClass(...) / resume
 }
 
+# (function, local variable) -> classes of the object bound to it, where no
+# constructor call or annotation says so.
+LOCAL_TYPES = {
+    (BASE + ".resume_from_pickled_sampler", "sampler"): [NS, INS],  # the unpickled sampler (documented: "Pickled sampler")
+    (BASE + ".resume", "sampler"): [NS, INS],  # pickle.load of a checkpoint written by checkpoint()
+    (NS + ".resume_from_pickled_sampler", "obj"): [NS],  # return value of the base classmethod called through super(NestedSampler, cls)
+    (NS + ".resume_from_pickled_sampler", "sampler"): [NS],
+    (INS + ".resume_from_pickled_sampler", "obj"): [INS],  # same for the importance sampler
+    (INS + ".resume_from_pickled_sampler", "sampler"): [INS],
+}
+
 # Reparameterisation Jacobian directions (R-SIGN) ----------------------------
 DATA_TO_LATENT = {
     "forward", "_transform", "rescale", "to_prime", "reparameterise", "forward_pass", "forward_and_log_prob",
